@@ -151,3 +151,46 @@ Definition torch_run (a : TArgs) (seed : Z) (files : list (string * tdesc))
     | _, _ => TObsExc ENotImplementedError [] []
     end
   end.
+
+(** * The entry points with their argument handling (C09/Tools.v), on numbered
+      configuration trees: what open(), the YAML/JSON loader, isinstance/iteration
+      and the alias factories do with each argument is looked up in tables the
+      harness fills in from the file system, the loader and the library. *)
+Record cfgdb : Type := mkDB {
+  db_files : list (string * string);            (* argument -> contents, when it names a readable file *)
+  db_load : list (string * option Z);           (* text -> number of the tree it loads to | None = the loader raises *)
+  db_shape : list (Z * CfgShape Z);
+  db_comp : list (Z * Build scomp);
+  db_pre : list (Z * Build spre);
+  db_post : list (Z * Build spost);
+}.
+
+Fixpoint assoc_s {A} (k : string) (l : list (string * A)) : option A :=
+  match l with [] => None | (k', v) :: l' => if String.eqb k k' then Some v else assoc_s k l' end.
+Fixpoint assoc_z {A} (k : Z) (l : list (Z * A)) : option A :=
+  match l with [] => None | (k', v) :: l' => if k =? k' then Some v else assoc_z k l' end.
+
+Definition db_fs (db : cfgdb) (s : string) : option string := assoc_s s (db_files db).
+Definition db_loader (db : cfgdb) (s : string) : option Z :=
+  match assoc_s s (db_load db) with Some o => o | None => None end.
+Definition db_shape_of (db : cfgdb) (c : Z) : CfgShape Z :=
+  match assoc_z c (db_shape db) with Some sh => sh | None => ShNotIterable end.
+Definition db_build {A} (t : list (Z * Build A)) (c : Z) : Build A :=
+  match assoc_z c t with Some b => b | None => BuildOtherError end.
+
+Definition kaldi_main_run (db : cfgdb) (a : KArgs) (wav : option (list kdesc)) (writable : bool) : obs :=
+  let ids := match wav with Some ds => ids_of ds | None => [] end in
+  match kaldi_main (L := SymLib) Z (db_fs db) (db_loader db) (db_shape_of db)
+                   (db_build (db_comp db)) (db_build (db_pre db)) (db_build (db_post db)) false
+                   a (option_map (map kitem_of) wav) writable RInit with
+  | KExit code table => ObsExit code (show_out ids table)
+  | KExc e table => ObsExc e (show_out ids table)
+  end.
+
+Definition torch_main_run (db : cfgdb) (a : TArgs) (fresh : Z) (files : list (string * tdesc)) : tobs :=
+  match torch_main (L := SymLib) Z (db_fs db) (db_loader db) (db_shape_of db)
+                   (db_build (db_comp db)) (db_build (db_pre db)) (db_build (db_post db))
+                   (sym_read files) s_len a fresh RInit with
+  | TExit code disk mani => TObsExit code (show_disk disk) mani
+  | TExc e disk mani => TObsExc e (show_disk disk) mani
+  end.
